@@ -813,7 +813,7 @@ class TupleMethod(DeserializationMethod):
             try:
                 elts[i] = elt_method.deserialize(data[i])
             except ValidationError as err:
-                set_child_error(elt_errors, i, err)
+                elt_errors = set_child_error(elt_errors, i, err)
         validate_constraints(data, self.constraints, elt_errors)
         return tuple(elts)
 
